@@ -371,6 +371,28 @@ PROPS["C03"] = dict(
     floor=dict(quick=8000, thorough=60000),
 )
 
+PROPS["C04"] = dict(
+    level="exploration",
+    technique="model-based differential testing with rapidcheck: abstract chain descriptions (with 0..2 defects and a validator configuration) are serialised by a harness DER writer and judged by a reference validator that evaluates the documented rules on the description, never on bytes; metamorphic static-vs-on-demand anchors and time-callback checks; byte-mutation enumerator over accepted chains",
+    rule=("case = chain of 0..4 certificates over pool keys (RSA 1017..4096 bits, weak RSA 512..1016, P-256/384/521), SHA-1..512 (and MD5), v1/v3/v4, names in "
+          "UTF8/Printable/IA5/Teletex/BMP, validity bounds at the instant +-1 s / day / years and at the UTCTime pivots, BasicConstraints / KeyUsage / SAN / "
+          "policies / ignorable / unknown extensions with criticality; anchor set (none, right, wrong key, middle issuer, direct trust, CA anchor named as the "
+          "leaf, non-CA anchor named as an issuer, name differing by type / case / text, two anchors for one name, decoys; static or on demand); server name "
+          "(random labels, random case, wildcard patterns, embedded NUL, several names, none); hash subsets; minimum RSA size; 0, 1 or 2 defects from 24 classes. "
+          "Checked: accept <=> reference accepts; with <= 1 defect the error code equals the documented one; on accept the returned key bytes, usages and the "
+          "CN / dNSName name elements equal the leaf's. non-trivial = any non-empty chain; distinct = the description string"),
+    assumptions=["OpenSSL signatures are correct (and are cross-checked against the abstract signature relation in every case)",
+                 "excluded by construction: SAN extensions without any dNSName, fractional or zoned times, query-side wildcards, name constraints, revocation",
+                 "two-defect chains are compared on accept/reject only (code differences are counted in the class histogram)",
+                 "byte-mutation sweep covers CA-anchored chains only: under direct trust the signature and unsigned fields are not looked at by design"],
+    targets=[dict(name="c04_x509", src="c04_x509.cpp", flavour="san", libs=["-lcrypto"])],
+    quick=[("c04_x509", "enum", dict(shards=16)),
+           ("c04_x509", "rc", dict(cases=6400, shards=16))],
+    thorough=[("c04_x509", "enum", dict(shards=16)),
+              ("c04_x509", "rc", dict(cases=600000, shards=16))],
+    floor=dict(quick=6000, thorough=100000),
+)
+
 # ---------------------------------------------------------------- manifest text
 HOOK_COMMITS = ["b37444c", "e1637c5"]
 NOT_APPLICABLE = {}
@@ -546,4 +568,14 @@ MANIFEST_TEXT["C03"] = dict(
           "verdict, returned key and usages are scripted on either side."),
     design_ref="DESIGN.md section 4, C03",
     note="renegotiated handshakes are altered only as ciphertext (C02); the Finished computation itself is checked against OpenSSL peers in C01",
+)
+
+MANIFEST_TEXT["C04"] = dict(
+    text=("A reference implementation of the documented validation rules, working on the abstract description a chain is generated from, predicts the "
+          "verdict, the error code, the leaf key, the usages and the extracted name elements; the library validates the DER the harness writes from "
+          "the same description (signed with OpenSSL). The reference never parses DER, so it shares no decoding assumption with the T0 decoder. "
+          "Anchors are supplied statically and through the port's on-demand callback for the same case; decoded validity instants are compared "
+          "through the time callback; every byte of every signed part and signature of accepted chains is altered by the enumerator."),
+    design_ref="DESIGN.md section 4, C04",
+    note="malformed DER is the business of C05/C07; here every input is well-formed and the question is the verdict",
 )
